@@ -132,6 +132,16 @@ impl Profile {
                     vals.push(padded(format!("v{}:", v), 120 + (v % 3) * 100, 0x80 + (v % 100) as u8));
                 }
             }
+            "bt" => {
+                // BTree.tla's uniform elements: 179-byte keys, 1-byte values
+                // (leaf element 32 + 179 + 1 = 212 bytes, branch element 24 + 179 = 203 bytes)
+                for i in 0..nkeys {
+                    keys.push(padded(format!("k{:04}", i), 179, b'K'));
+                }
+                for v in 0..nvals {
+                    vals.push(vec![b'0' + (v % 70) as u8]);
+                }
+            }
             _ => panic!("unknown profile {}", name),
         }
         for w in keys.windows(2) {
